@@ -1257,16 +1257,18 @@ func (in *c07Inst) checkChan(ci int) error {
 }
 
 // c07Contiguous states contiguity directly: rows at or below the adopted retention boundary
-// (logically trimmed, physical deletion may be pending) run contiguously from the retained
-// start; every sequence above the boundary up to the log end is present exactly once.
+// (logically trimmed, physical deletion may be pending) ascend from the physical start;
+// every sequence above the boundary up to the log end is present exactly once.
 func c07Contiguous(start, adopted, leo uint64, n int, seq func(int) uint64) string {
 	next := start
 	i := 0
 	for ; i < n && seq(i) <= adopted; i++ {
-		if seq(i) != next {
-			return fmt.Sprintf("row %d below the retention boundary has sequence %d, want %d", i, seq(i), next)
+		// (boundaries adopted beyond the log end leave sequence ranges that never held rows,
+		// so below the boundary only "ascending, not below the physical start" is claimed)
+		if seq(i) < next {
+			return fmt.Sprintf("row %d below the retention boundary has sequence %d, want >= %d", i, seq(i), next)
 		}
-		next++
+		next = seq(i) + 1
 	}
 	want := adopted + 1
 	if start > want {
